@@ -55,6 +55,23 @@ def make_pool(rng):
     pool.append((f"W{cc:x}", "Command", bytes(bad), None, None, False))
     rng.shuffle(pool)
     pool = pool[: rng.randint(3, 6)]
+    # two different commands whose parameter areas have exactly the same member list (CreatePrimary / Create, the
+    # *ChangeAuth commands, Load / LoadExternal responses ...), both with an encrypted parameter area: layouts derived from
+    # equal-looking tables must not be confused with each other
+    fams = {}
+    for side, table, encable in (("C", "command_params", encable_c), ("R", "response_params", encable_r)):
+        for cc in encable:
+            fams.setdefault((side, tuple(map(tuple, g.A[g.P["areas"][str(cc)][table]]["fields"]))), []).append(cc)
+    twins = sorted((k, v) for k, v in fams.items() if len(v) >= 2)
+    if twins:
+        (side, _f), members = twins[rng.randrange(len(twins))]
+        for cc in rng.sample(members, 2):
+            if side == "C":
+                (cb2, _e, _ci), _r = g.pair(cc, dict(sessions=1, decrypt=True))
+                pool.append((f"T{cc:x}dec", "Command", cb2, None, None, True))
+            else:
+                _c, (rb2, _e, ri2) = g.pair(cc, dict(sessions=1, encrypt=True))
+                pool.append((f"T{cc:x}enc", "Response", rb2, cc, ri2["enc"], True))
     # stand-alone structures with size-prefixed parts: whole, truncated inside a sized buffer (strict: the decode is
     # abandoned with an error there), and the truncated one in warn mode - per-call state must not leak between them
     tn = rng.choice(("TPM2B_DIGEST", "TPM2B_PUBLIC", "TPM2B_SENSITIVE_CREATE", "TPML_DIGEST", "TPMT_HA", "TPM2B_ECC_POINT", "TPMS_AUTH_COMMAND", "TPM2B_NV_PUBLIC"))
